@@ -1,7 +1,9 @@
 """C07 - a peer's release request is always answered with a release response.
 
-A raw DIMSE peer (hand-built bytes) runs C-FIND / C-GET operations against a
-real acceptor whose handlers yield n = 0..3 results, and sends A-RELEASE-RQ
+A raw DIMSE peer (hand-built bytes) runs C-FIND / C-GET / C-MOVE operations
+against a real acceptor whose handlers yield n = 0..3 results (C-MOVE
+sub-operations go over a real sub-association to a second real AE under the
+same scheduler), and sends A-RELEASE-RQ
 at every arrival point: while idle, before/between/after every yield of the
 handler (the handler is held until the request has reached the local
 provider), during every C-STORE sub-operation of a C-GET, and after the final
@@ -34,7 +36,15 @@ class ReleaseDuring(Scenario):
         ae = scen.make_ae("ACC")
         ae.add_supported_context(dp.FIND)
         ae.add_supported_context(dp.GET)
+        ae.add_supported_context(dp.MOVE)
         ae.add_supported_context(dp.CT, scu_role=True, scp_role=True)
+        if op == "move":
+            # the Move Destination: a second real AE (Storage SCP) under the same scheduler
+            ae.add_requested_context(dp.CT, [IVRLE])
+            dest = scen.make_ae("DEST")
+            dest.add_supported_context(dp.CT, [IVRLE])
+            ctx["dest_stores"] = []
+            ctx["dest_server"] = scen.start_server(s, dest, [(evt.EVT_C_STORE, lambda e: ctx["dest_stores"].append(1) or 0)], port=scen.PORT + 1, max_requests=1)
         flags = {"send_release": False, "release_sent_at": None}
         ctx["flags"] = flags
 
@@ -53,7 +63,7 @@ class ReleaseDuring(Scenario):
             ds.SOPClassUID = dp.CT
             ds.SOPInstanceUID = "1.2.3"
             ds.QueryRetrieveLevel = "PATIENT"
-            if op == "get":
+            if op in ("get", "move"):
                 from pydicom.dataset import FileMetaDataset
 
                 ds.file_meta = FileMetaDataset()
@@ -75,7 +85,16 @@ class ReleaseDuring(Scenario):
                     ctx["handler_log"].append(("yield", k))
                     yield 0xFF00, mk()
 
-        handlers = list(rec.handlers()) + [(evt.EVT_C_FIND, on_find), (evt.EVT_C_GET, on_get), (evt.EVT_ESTABLISHED, lambda e: ctx["acc_assocs"].append(e.assoc))]
+        def on_move(event):
+            yield ("127.0.0.1", scen.PORT + 1)
+            yield n
+            for k in range(n + 1):
+                hold(k)
+                if k < n:
+                    ctx["handler_log"].append(("yield", k))
+                    yield 0xFF00, mk()
+
+        handlers = list(rec.handlers()) + [(evt.EVT_C_FIND, on_find), (evt.EVT_C_GET, on_get), (evt.EVT_C_MOVE, on_move), (evt.EVT_ESTABLISHED, lambda e: ctx["acc_assocs"].append(e.assoc))]
         scen.start_server(s, ae, handlers, max_requests=1)
         PS = ctx["peer"]
         PS.update(rp_at=None, abort=False, eof=False, final=None, stores=0, log=[])
@@ -83,7 +102,7 @@ class ReleaseDuring(Scenario):
         def peer_main():
             so = sim.SimSocket()
             so.connect(("127.0.0.1", scen.PORT))
-            so.send(dp.assoc_rq([(1, dp.FIND, [IVRLE]), (3, dp.GET, [IVRLE]), (5, dp.CT, [IVRLE])], roles=[(dp.CT, 0, 1)]))
+            so.send(dp.assoc_rq([(1, dp.FIND, [IVRLE]), (3, dp.GET, [IVRLE]), (5, dp.CT, [IVRLE]), (7, dp.MOVE, [IVRLE])], roles=[(dp.CT, 0, 1)]))
             rd = dp.MessageReader()
             seen_msgs = 0
             seen_pdus = 0
@@ -121,7 +140,7 @@ class ReleaseDuring(Scenario):
                         if point == ("idle",):
                             send_release("idle")
                         else:
-                            so.send(dp.find_rq(1, 21) if op == "find" else dp.get_rq(3, 21))
+                            so.send(dp.find_rq(1, 21) if op == "find" else (dp.get_rq(3, 21) if op == "get" else dp.move_rq(7, 21)))
                     elif t == 6:
                         PS["rp_at"] = s.now
                     elif t == 7:
@@ -137,7 +156,7 @@ class ReleaseDuring(Scenario):
                         elif not state["released"]:
                             so.send(dp.store_rsp(m["cx"], m["msg_id"]))
                             PS["store_rsps"] = PS.get("store_rsps", 0) + 1
-                    elif m["field"] in (dp.C_FIND_RSP, dp.C_GET_RSP) and m["status"] not in (0xFF00, 0xFF01):
+                    elif m["field"] in (dp.C_FIND_RSP, dp.C_GET_RSP, dp.C_MOVE_RSP) and m["status"] not in (0xFF00, 0xFF01):
                         PS["final"] = m["status"]
                         if point == ("after",):
                             send_release("after")
@@ -146,6 +165,8 @@ class ReleaseDuring(Scenario):
                     break
             PS["msgs"] = [(m["field"], m["status"]) for m in rd.msgs]
             so.close()
+            if "dest_server" in ctx:
+                ctx["dest_server"]._sim_stop()  # harness thread: the destination stops listening once the peer is done
 
         s.spawn(peer_main, "peer")
         return ctx
@@ -187,14 +208,14 @@ class ReleaseDuring(Scenario):
 
     def summary(self, s, ctx, why):
         PS = ctx["peer"]
-        return (why, PS["rp_at"] is not None, PS["abort"], PS["final"], PS["stores"])
+        return (why, PS["rp_at"] is not None, PS["abort"], PS["final"], PS["stores"] + len(ctx.get("dest_stores", ())))
 
 
 def scenarios(quick):
     out = []
-    for op in ("find", "get"):
+    for op in ("find", "get", "move"):
         for n in range(0, 4):
-            pts = [("idle",), ("after",)] + [("yield", k) for k in range(n + 1) if not (op == "get" and n == 0)]
+            pts = [("idle",), ("after",)] + [("yield", k) for k in range(n + 1) if not (op in ("get", "move") and n == 0)]
             if op == "get":
                 pts += [("substore", k) for k in range(n)]
             for p in pts:
@@ -208,7 +229,7 @@ def run(ctx: core.Ctx) -> core.Result:
     res = explore.explore_family(scns, D=D, seed=ctx.seed)
     deep = []
     if ctx.quick:
-        deep = [s for s in scns if (s.op, s.n) in (("find", 2), ("get", 2)) and s.point[0] in ("yield", "substore", "idle")]
+        deep = [s for s in scns if (s.op, s.n) in (("find", 2), ("get", 2), ("move", 2)) and s.point[0] in ("yield", "substore", "idle")]
         res2 = explore.explore_family(deep, D=1, seed=ctx.seed)
     else:
         res2 = []
